@@ -845,24 +845,52 @@ Fixpoint has_type (v : value) (t : ty) : bool :=
 
 (* ------------------------------------------------------------------ known-finding classes *)
 Definition pty (p : pres) : option ty := match p with POk r => Some (rty r) | _ => None end.
-Definition pvalued (p : pres) : bool := match p with POk r => match rval r with Some _ => true | None => false end | _ => false end.
 
 (* Known_C06_slice_bound_unvalued: a slice whose base value is known while a PRESENT bound's
    value is not (const_eval.rs treats that bound as omitted). *)
+Definition pvalued_str (p : pres) : bool :=
+  match p with POk r => match rval r with Some (VStr _) => true | _ => false end | _ => false end.
+Definition pvalued_int (p : pres) : bool :=
+  match p with POk r => match rval r with Some (VInt _) => true | _ => false end | _ => false end.
+(* "if it evaluates at all, its value is known" *)
+Definition ok_valued (p : pres) : bool :=
+  match p with POk r => match rval r with Some _ => true | None => false end | _ => true end.
+Definition tag_strict (t : tag) : bool :=
+  match t with
+  | NUn _ | NIndex | NSlice _ _ _ => true
+  | NBin (BAdd | BIn | BNotIn) => true
+  | _ => false
+  end.
+
 Section Classes.
   Context (ds : list decl) (c : cenv).
-  Fixpoint all_valued (es : exprs) : bool :=
-    match es with ENil => true | ECons e r => pvalued (cexpr ds c e) && all_valued r end.
+  Fixpoint all_int_valued (es : exprs) : bool :=
+    match es with ENil => true | ECons e r => pvalued_int (cexpr ds c e) && all_int_valued r end.
+  Definition bounds_unvalued (t : tag) (es : exprs) : bool :=
+    match t, es with
+    | NSlice _ _ _, ECons b rest => pvalued_str (cexpr ds c b) && negb (all_int_valued rest)
+    | _, _ => false
+    end.
   Fixpoint unvalued_bound (e : expr) : bool :=
     match e with
-    | ENode t es =>
-        (match t, es with
-         | NSlice _ _ _, ECons b rest => pvalued (cexpr ds c b) && negb (all_valued rest)
-         | _, _ => false end) || unvalued_bound_list es
+    | ENode t es => bounds_unvalued t es || unvalued_bound_list es
     | _ => false
     end
   with unvalued_bound_list (es : exprs) : bool :=
     match es with ENil => false | ECons e r => unvalued_bound e || unvalued_bound_list r end.
+
+  (* the fragment on which compile-time diagnostics and run-time exceptions coincide exactly:
+     strict string operators only (no `and`/`or`: lazy at run time, eager at compile time; no
+     numeric arithmetic / comparison: only a type is computed), and every sub-expression that
+     evaluates has a known value *)
+  Fixpoint vfrag (e : expr) : bool :=
+    match e with
+    | ELit _ => true
+    | EIdent _ => ok_valued (cexpr ds c e)
+    | ENode t es => tag_strict t && vfrag_list es && ok_valued (cexpr ds c e) && negb (bounds_unvalued t es)
+    end
+  with vfrag_list (es : exprs) : bool :=
+    match es with ENil => true | ECons e r => vfrag e && vfrag_list r end.
 
   (* Known_C06_hetero_collection: a list/set/dict literal whose element (key, value) types are
      not all the first one's — the evaluator types the collection by its first element only. *)
@@ -890,21 +918,6 @@ Section Classes.
   with hetero_list (es : exprs) : bool :=
     match es with ENil => false | ECons e r => hetero e || hetero_list r end.
 End Classes.
-
-(* the string fragment on which compile-time errors and run-time exceptions coincide exactly:
-   no `and`/`or` (lazy at run time, eager at compile time), no numeric arithmetic/comparison
-   (value not computed at compile time) *)
-Fixpoint sfrag (e : expr) : bool :=
-  match e with
-  | ELit _ | EIdent _ => true
-  | ENode t es =>
-      (match t with
-       | NUn _ | NIndex | NSlice _ _ _ => true
-       | NBin (BAdd | BIn | BNotIn) => true
-       | _ => false end) && sfrag_list es
-  end
-with sfrag_list (es : exprs) : bool :=
-  match es with ENil => true | ECons e r => sfrag e && sfrag_list r end.
 
 (* ------------------------------------------------------------------ static-str folding (emit/consts.rs) *)
 (* sds: the consts whose IR type is StaticStr (annotation `str`), with their initializers *)
